@@ -359,7 +359,8 @@ PROPS["C15"] = dict(
                "l->d->a and r->b->c after a swap, the two resp. four triangles after a cut with their gluing, every other image "
                "untouched -- so triangles stay triangles and the neighbourhood keeps its adjacency); the interior collapse to the "
                "midpoint removes the six darts of the two triangles and glues their outer neighbours pairwise, nothing else "
-               "changes (C15_collapse_midpoint_topology, images and removal flags); other collapse variants: per observation",
+               "changes (C15_collapse_midpoint_topology, images and removal flags) and leaves a well-formed map "
+               "(C15_collapse_midpoint_keeps_wf2); other collapse variants: per observation",
     technique="Coq model of the kernels + correspondence + extracted Coq specification (exact arithmetic) as per-run validator",
     families=[
         Family("kern-remesh", "core2", r_kern("remesh", 1200, 20000, 8), 1, [(9, "remesh_spec", REM_CLASSES)]),
